@@ -243,6 +243,12 @@ func (s *Sys) execX(op []string, note func(string, ...any)) string {
 			return "err:" + clip(firstLine(err.Error()))
 		}
 		return r
+	case "lfraw": // x lfraw: the raw leaf rows of the change-log database (V2Leaves.v)
+		r, err := leafRaw(s.cur)
+		if err != nil {
+			return "err:" + clip(firstLine(err.Error()))
+		}
+		return r
 	case "prunewait": // x prunewait: wait for the pruners started by "x prune n nowait"
 		if s.h == nil {
 			return "closed"
